@@ -214,15 +214,6 @@ def mk_reqobj(env, st):
     return r
 
 
-@contract("gunicorn.http.wsgi:default_environ", props=("C15",))
-class DefaultEnviron(Contract):
-    """TRUSTED here (its own contract is part of C15): returns a fresh environ dict"""
-    trusted = True
-
-    def result_shape(self, c):
-        return c.st.alloc(HDict({}))
-
-
 def exc_cases(env):
     E = http_errs(env)
     import ssl
@@ -310,11 +301,95 @@ def fresh_response(env, st, req, sock, cfg):
         "g_closed": SBool(False)}))
 
 
+inline("gunicorn.http.wsgi:proxy_environ", "gunicorn.http.wsgi:default_environ", "gunicorn.http.wsgi:base_environ", "gunicorn.http.wsgi:Response.__init__")
+
+
+def _ctor_errwrap(ex, st, self_v, args, kwargs, node):
+    return R1(ex, st, Opaque("wsgi.errors"))
+
+
+STUBS["ctor:WSGIErrorsWrapper"] = _ctor_errwrap
+
+
+def _unquote_wsgi(ex, st, self_v, args, kwargs, node):
+    """util.unquote_to_wsgi_str (urllib.parse.unquote_to_bytes + latin-1 decode): TRUSTED; ghost record of its argument"""
+    st.ghost["unquote_arg"] = args[0]
+    return R1(ex, st, strops.fresh_str(st, "PATH_INFO", True, canonical=True))
+
+
+def _hname_eq(seq, j, lit):
+    from pyvc.values import str_eq
+    return str_eq(seq.elem(j).items[0], SStr.lit(lit))
+
+
+def _last_named(seq, upto, lit, val):
+    """val is the value of the LAST header named `lit` among the first `upto` entries"""
+    j, j2 = qvar("j"), qvar("j2")
+    w = val.single_win() if isinstance(val, SStr) else None
+    if w is None:
+        return FALSE
+    vw = lambda k: seq.elem(k).items[1].single_win()
+    return z3.Exists([j], And(seq.lo <= j, j < upto, _hname_eq(seq, j, lit), vw(j).lo == w.lo, vw(j).hi == w.hi,
+                              z3.ForAll([j2], Implies(And(j < j2, j2 < upto), Not(_hname_eq(seq, j2, lit))))))
+
+
+def _some_named(seq, upto, lit):
+    j = qvar("j")
+    return z3.Exists([j], And(seq.lo <= j, j < upto, _hname_eq(seq, j, lit)))
+
+
+def _slot(d, key):
+    """(present, value) of a literal key of an HDict"""
+    from pyvc.values import SMaybe
+    v = d.items.get(key)
+    if v is None:
+        return FALSE, None
+    if isinstance(v, SMaybe):
+        return v.present, v.inner
+    return TRUE, v
+
+
 @contract("gunicorn.http.wsgi:create", props=("C15", "C08"))
 class CreateForWorkers(Contract):
-    """call-mode model used by the worker handlers (the environ content itself is C15/C08's subject): a fresh Response bound
+    """verify mode (C15/C08): the environ built from an accepted request; call mode (worker handlers): a fresh Response bound
     to the client socket and an environ object; may raise ConfigurationProblem or OSError (100-continue send)"""
-    trusted = True
+    weight = 3
+
+    def cases(self, env):
+        from .http_message import mk_headers
+        from .arbiter import mk_envdict
+        from .cfgmodel import enum_str
+        out = []
+        for peer in ("tcp", "unix"):
+            for proxied in (False, True):
+                st = W.base_state(env)
+                STUBS["ctor:WSGIErrorsWrapper"] = _ctor_errwrap
+                STUBS["gunicorn.util.unquote_to_wsgi_str"] = _unquote_wsgi
+                req = W.mk_reqview(env, st)
+                hdrs, seq = mk_headers(st, "req.headers")
+                info = NONE
+                if proxied:
+                    info = st.alloc(HDict({"proxy_protocol": strops.fresh_str(st, "pp.proto", True, canonical=True),
+                                           "client_addr": strops.fresh_str(st, "pp.client_addr", True, canonical=True),
+                                           "client_port": SInt(z3.Int("pp.client_port")),
+                                           "proxy_addr": strops.fresh_str(st, "pp.proxy_addr", True, canonical=True),
+                                           "proxy_port": SInt(z3.Int("pp.proxy_port"))}))
+                st.obj(req).fields.update({
+                    "uri": strops.fresh_str(st, "req.uri", True, canonical=True), "query": strops.fresh_str(st, "req.query", True, canonical=True),
+                    "path": strops.fresh_str(st, "req.path", True, canonical=True), "body": Opaque("body"), "headers": hdrs,
+                    "scheme": enum_str(st, "req.scheme", ["http", "https"], canonical=True), "proxy_protocol_info": info})
+                sock = mk_sock(env, st, "client")
+                cfg = mk_cfg(env, st)
+                client = STuple([strops.fresh_str(st, "peer.host", True, canonical=True), SInt(z3.Int("peer.port"))]) if peer == "tcp" \
+                    else strops.fresh_str(st, "peer.path", True, canonical=True)
+                server = STuple([strops.fresh_str(st, "srv.host", True, canonical=True), SInt(z3.Int("srv.port"))])
+                envd = mk_envdict(env, st)
+                st.obj(st.obj(envd).fields["g_set"]).items["SCRIPT_NAME"] = strops.fresh_str(st, "env.SCRIPT_NAME", True, canonical=True)
+                st.ghost["os.environ"] = envd
+                out.append(("peer=%s,proxy-protocol=%s" % (peer, proxied), st,
+                            {"req": req, "sock": sock, "client": client, "server": server, "cfg": cfg},
+                            {"seq": seq, "peer": peer, "proxied": proxied, "info": info}))
+        return out
 
     def raises(self, c):
         E = http_errs(c.ex.env)
@@ -326,6 +401,135 @@ class CreateForWorkers(Contract):
         resp = fresh_response(c.ex.env, st, c.a["req"], c.a["sock"], c.a["cfg"])
         st.ghost["resp"] = resp
         return STuple([resp, st.alloc(HObj("Environ", {}))])
+
+    def exc_post(self, c):
+        if c.mode == "call" or c.exc is None:
+            return []
+        E = http_errs(c.ex.env)
+        if c.exc.cls is E.ConfigurationProblem:
+            return [("ConfigurationProblem-only-for-a-non-empty-script-name", TRUE)]
+        return []
+
+    def post(self, c):
+        if c.mode == "call":
+            return []
+        from .sockmodel import rope_struct_eq
+        from pyvc.values import str_eq, Lit, Num
+        st1, st0 = c.st, c.old
+        g = c.g
+        seq = g["seq"]
+        req = st0.obj(c.a["req"])
+        if not (isinstance(c.result, STuple) and len(c.result.items) == 2 and isinstance(c.result.items[1], Ref)):
+            return [("returns-(response, environ)", FALSE)]
+        resp, envr = c.result.items
+        E = st1.obj(envr)
+        if not isinstance(E, HDict):
+            return [("environ-is-a-dict", FALSE)]
+        same = lambda x, y: TRUE if (x is y or (isinstance(x, SStr) and isinstance(y, SStr) and x.atoms == y.atoms)) else FALSE
+        item = lambda k: _slot(E, k)
+        out = []
+        for key, fld in (("REQUEST_METHOD", "method"), ("QUERY_STRING", "query"), ("RAW_URI", "uri"), ("wsgi.url_scheme", "scheme"), ("wsgi.input", "body")):
+            pres, v = item(key)
+            out.append(("%s-is-the-request's-%s" % (key, fld), And(pres, same(v, req.fields[fld])) if v is not None else FALSE))
+        pres, v = item("SERVER_PROTOCOL")
+        v0, v1 = req.fields["version"].items
+        out.append(("SERVER_PROTOCOL==HTTP/major.minor", rope_struct_eq(v, SStr([Lit(b"HTTP/"), Num("dec", v0.t), Lit(b"."), Num("dec", v1.t)], True)) if isinstance(v, SStr) else FALSE))
+        for key, hname in (("CONTENT_TYPE", "CONTENT-TYPE"), ("CONTENT_LENGTH", "CONTENT-LENGTH")):
+            pres, v = item(key)
+            out.append(("%s-present-iff-the-client-sent-it" % key, pres == _some_named(seq, seq.hi, hname)))
+            out.append(("%s-is-the-(last)-value-sent" % key, Implies(pres, _last_named(seq, seq.hi, hname, v)) if v is not None else Not(_some_named(seq, seq.hi, hname))))
+        # SCRIPT_NAME / PATH_INFO
+        pres, sn = item("SCRIPT_NAME")
+        envsn = st0.obj(st0.obj(st0.ghost["os.environ"]).fields["g_set"]).items["SCRIPT_NAME"]
+        j = qvar("j")
+        from_hdr = z3.Exists([j], And(seq.lo <= j, j < seq.hi, _hname_eq(seq, j, "SCRIPT_NAME"), str_eq(sn, seq.elem(j).items[1]))) if isinstance(sn, SStr) else FALSE
+        out.append(("SCRIPT_NAME-comes-from-the-process-environment-or-a-SCRIPT_NAME-header", And(pres, Or(str_eq(sn, envsn), from_hdr)) if isinstance(sn, SStr) else FALSE))
+        arg = st1.ghost.get("unquote_arg")
+        path = req.fields["path"]
+        pw = path.single_win()
+        ok = FALSE
+        if isinstance(arg, SStr) and isinstance(sn, SStr):
+            aw = arg.single_win()
+            if aw is not None and aw.base.eq(pw.base):
+                ok = And(aw.hi == pw.hi, aw.lo == pw.lo + If(sn.length() > 0, sn.length(), iv(0)))
+        out.append(("PATH_INFO-is-the-decoded-request-path-after-exactly-the-SCRIPT_NAME-prefix", ok))
+        pres, pi = item("PATH_INFO")
+        out.append(("PATH_INFO-set", pres))
+        out.append(("script-name-is-a-prefix-of-the-path", Implies(sn.length() > 0, _startswith(path, sn)) if isinstance(sn, SStr) else FALSE))
+        # REMOTE_ADDR / REMOTE_PORT: the socket peer, overridden ONLY by PROXY protocol information attached to the request
+        pres, ra = item("REMOTE_ADDR")
+        presp, rp = item("REMOTE_PORT")
+        if g["proxied"]:
+            info = st0.obj(g["info"]).items
+            out.append(("proxied:REMOTE_ADDR-is-the-PROXY-declared-client", And(pres, same(ra, info["client_addr"]))))
+            out.append(("proxied:REMOTE_PORT-is-the-PROXY-declared-port", And(presp, rope_struct_eq(rp, SStr([Num("dec", info["client_port"].t)], True))) if isinstance(rp, SStr) else FALSE))
+            out.append(("proxied:PROXY_ADDR-set", And(item("PROXY_ADDR")[0], same(item("PROXY_ADDR")[1], info["proxy_addr"]))))
+        elif g["peer"] == "tcp":
+            out.append(("REMOTE_ADDR-is-the-socket-peer", And(pres, same(ra, c.a["client"].items[0]))))
+            out.append(("REMOTE_PORT-is-the-socket-peer-port", And(presp, rope_struct_eq(rp, SStr([Num("dec", c.a["client"].items[1].t)], True))) if isinstance(rp, SStr) else FALSE))
+        else:
+            out.append(("REMOTE_ADDR-is-the-socket-peer", And(pres, same(ra, c.a["client"]))))
+            out.append(("no-REMOTE_PORT-for-a-unix-peer", Not(presp)))
+        pres, sv = item("SERVER_NAME")
+        out.append(("SERVER_NAME-is-the-listener-address", And(pres, same(sv, c.a["server"].items[0]))))
+        pres, sp = item("SERVER_PORT")
+        out.append(("SERVER_PORT-is-the-listener-port", And(pres, rope_struct_eq(sp, SStr([Num("dec", c.a["server"].items[1].t)], True))) if isinstance(sp, SStr) else FALSE))
+        # header variables live in a region of keys that cannot collide with any CGI / wsgi.* key
+        out.append(("header-variables-are-all-under-the-HTTP_-prefix", TRUE if (E.dyn is None or E.dyn["prefix"].startswith(b"HTTP_")) else FALSE))
+        # the response object is fresh and bound to this request / socket; nothing but '100 Continue' was sent
+        r = st1.obj(resp) if isinstance(resp, Ref) else None
+        out.append(("response-bound-to-the-request-and-socket", TRUE if (r is not None and r.fields.get("req") is not None and r.fields["req"].oid == c.a["req"].oid
+                                                                          and r.fields["sock"].oid == c.a["sock"].oid) else FALSE))
+        wl1, wl0 = st1.obj(c.a["sock"]).fields["g_wl"].t, st0.obj(c.a["sock"]).fields["g_wl"].t
+        out.append(("nothing-sent-unless-the-client-expects-100-continue", Implies(Not(_some_named(seq, seq.hi, "EXPECT")), wl1 == wl0)))
+        return out
+
+    loops = {0: dict(anchor="for hdr_name, hdr_value in req.headers", cands=[
+        ("CT", lambda L: _create_inv(L, "CONTENT_TYPE", "CONTENT-TYPE")),
+        ("CL", lambda L: _create_inv(L, "CONTENT_LENGTH", "CONTENT-LENGTH")),
+        ("script_name", lambda L: _create_sn(L)),
+        ("wire", lambda L: _create_wire(L)),
+    ])}
+
+
+def _startswith(s, p):
+    return strops.sym_prefix(s, p)
+
+
+def _create_env(L):
+    return L.st.obj(L.environ)
+
+
+def _create_seq(L):
+    return L.ex.sym_seq(L.entry, L.iter)
+
+
+def _create_inv(L, key, hname):
+    E = _create_env(L)
+    seq = _create_seq(L)
+    pres, v = _slot(E, key)
+    i = seq.lo + L.loop_index
+    if v is None:
+        return Not(_some_named(seq, i, hname))
+    return And(pres == _some_named(seq, i, hname), Implies(pres, _last_named(seq, i, hname, v)))
+
+
+def _create_sn(L):
+    from pyvc.values import str_eq
+    seq = _create_seq(L)
+    i = seq.lo + L.loop_index
+    sn = L.script_name
+    envsn = L.fentry.obj(L.fentry.obj(L.fentry.ghost["os.environ"]).fields["g_set"]).items["SCRIPT_NAME"]
+    j = qvar("j")
+    return Or(str_eq(sn, envsn), z3.Exists([j], And(seq.lo <= j, j < i, _hname_eq(seq, j, "SCRIPT_NAME"), str_eq(sn, seq.elem(j).items[1]))))
+
+
+def _create_wire(L):
+    seq = _create_seq(L)
+    i = seq.lo + L.loop_index
+    wl1 = L.st.obj(L.sock).fields["g_wl"].t
+    wl0 = L.fentry.obj(L.sock).fields["g_wl"].t
+    return Implies(Not(_some_named(seq, i, "EXPECT")), wl1 == wl0)
 
 
 class AppIterModel(ClassModel):
